@@ -641,6 +641,26 @@ def hosts_matmul_gemm():
         h.n("Add", ["mm", "c"], "y")
         h.out("y")
         out.append(h.build())
+    # the same with degenerate and coinciding sizes: the bias may take any shape built from M, K, N and 1 (an Add broadcasts in both
+    # directions, Gemm only broadcasts C to (M, N): e.g. M = 1 with a bias [K, N])
+    for (M, K, N), ta, tb in itertools.product([(1, 4, 3), (1, 2, 2), (2, 1, 3), (3, 3, 3), (4, 1, 1)], [False, True], [False, True]):
+        cshapes = sorted({(M, N), (K, N), (K, 1), (N,), (1, N), (M, 1), (N, 1) if N != M else (M, N), (K,)})
+        for cshape in cshapes:
+            h = H(f"Add(MatMul({'T(a)' if ta else 'a'}, {'T(b)' if tb else 'b'}), c{list(cshape)}) M,K,N={M},{K},{N}")
+            h.inp("a", F, (K, M) if ta else (M, K))
+            h.c("b", w((N, K) if tb else (K, N)))
+            h.c("c", w(cshape))
+            a, b = "a", "b"
+            if ta:
+                h.n("Transpose", ["a"], "at", perm=[1, 0])
+                a = "at"
+            if tb:
+                h.n("Transpose", ["b"], "bt", perm=[1, 0])
+                b = "bt"
+            h.n("MatMul", [a, b], "mm")
+            h.n("Add", ["mm", "c"], "y")
+            h.out("y")
+            out.append(h.build())
     # non-2D operands: must not fire
     h = H("Add(MatMul(a[2,2,4], b[4,3]), c)")
     h.inp("a", F, (2, 2, 4))
